@@ -9,6 +9,7 @@ def parseResp (s : String) : Option Resp :=
   match s.splitOn "/" with
   | [st, m, b] =>
     let body := if b == "n" then Body.none
+      else if b.startsWith "z:" then Body.bytes (List.replicate (b.drop 2).toString.toNat! 90)   -- n bytes 'Z'
       else if b.startsWith "s:" then Body.str (cpsNat (b.drop 2).toString)
       else Body.bytes (unhexS (b.drop 2).toString)
     some ⟨parseInt st, cpsNat m, body⟩
